@@ -349,32 +349,70 @@ theorem constraintLoop_nil (ctx : RCtx) (fuel : Nat) (l : List (Name × Tree)) (
 /-! ## 4b. The oracle: a rule and its isolated form agree
 
 `Spec.isolate` (`Spec/PureRule.lean`) wraps every sub-rule in a singleton `all … none`, which is
-trace-free by construction; the C04 oracle compares the evaluator on `r` and on `isolate r`.
-Fragment (`Rule.isoOK`): no `matches` (the driver isolates the registries separately, which
-changes the context) and no pattern variable called `secondary`.  The `secondary` label itself is
-excluded from the comparison: it records the node a relation's sub-rule *returned*, and a wrapped
-sub-rule returns the candidate instead of the node it found. -/
+trace-free by construction; the C04 oracle (`Driver/RuleIO.lean`, `opOracleIsolate`) runs
+`matchCore` on `Spec.isolateCore core` in the context `isoCtx ctx` — every local utility mapped by
+`Spec.isolate`, every global one by `Spec.isolateCore` — and compares the verdict, the single
+bindings and the multi bindings other than `secondary` with the implementation's.
+Fragment (`Rule.isoOK`, `RegIsoOK`, `CoreIsoOK`): no pattern variable is called `secondary`
+(`matches` is allowed).  The `secondary` label itself is not compared: it records the node a
+relation's sub-rule *returned*, and a wrapped sub-rule returns the candidate instead of the node
+it found (`isolate_example`). -/
 
-/-- whenever the isolated rule ends normally, the rule itself ends normally with the same fuel,
-the same verdict, and the same environment up to the `secondary` label -/
-theorem isolate_simulates (ctx : RCtx) (f : Nat) (r : Rule) (hr : r.isoOK = true) (n : Tree)
-    (env : Env) (x : Option Tree × Env) (h : matchRule ctx f (Spec.isolate r) n env = .ok x) :
+/-- the context of the oracle is `isoCtx` -/
+theorem isoCtx_is_the_oracle_context (ctx : RCtx) :
+    isoCtx ctx = { ctx with locals := ctx.locals.map fun (k, r) => (k, Spec.isolate r),
+                            globals := ctx.globals.map fun (k, c) => (k, Spec.isolateCore c) } := rfl
+
+/-- whenever the isolated rule (in the isolated context) ends normally, the rule itself ends
+normally with the same fuel, the same verdict, and the same environment up to the `secondary`
+label -/
+theorem isolate_simulates (ctx : RCtx) (hreg : RegIsoOK ctx) (f : Nat) (r : Rule)
+    (hr : r.isoOK = true) (n : Tree) (env : Env) (x : Option Tree × Env)
+    (h : matchRule (isoCtx ctx) f (Spec.isolate r) n env = .ok x) :
     ∃ y, matchRule ctx f r n env = .ok y ∧ x.1.isSome = y.1.isSome ∧ EqNS x.2 y.2 :=
-  isolate_simulates' ctx f r hr n env x h
+  isolate_simulates' ctx hreg f r hr n env x h
 
-/-- **the oracle's comparison**: whenever both evaluations end normally (any two fuels) they
-agree on success/failure, on every single-variable binding, on every multi binding other than the
-label `secondary`, and on `transformed` -/
-theorem isolate_agrees (ctx : RCtx) (fuel fuel' : Nat) (r : Rule) (hr : r.isoOK = true) (n : Tree)
-    (env : Env) (res res' : Option Tree) (e e' : Env)
-    (h : matchRule ctx fuel (Spec.isolate r) n env = .ok (res, e))
+/-- rules, through `matches`: whenever both evaluations end normally (any two fuels) they agree
+on success/failure, on the single bindings (the whole list), on every multi binding other than
+the label `secondary`, and on `transformed` -/
+theorem isolate_agrees (ctx : RCtx) (hreg : RegIsoOK ctx) (fuel fuel' : Nat) (r : Rule)
+    (hr : r.isoOK = true) (n : Tree) (env : Env) (res res' : Option Tree) (e e' : Env)
+    (h : matchRule (isoCtx ctx) fuel (Spec.isolate r) n env = .ok (res, e))
     (h' : matchRule ctx fuel' r n env = .ok (res', e')) :
-    res.isSome = res'.isSome ∧
-    (∀ v, v ≠ secondaryLabel → alookup v e.single = alookup v e'.single) ∧
+    res.isSome = res'.isSome ∧ e.single = e'.single ∧
     (∀ v, v ≠ secondaryLabel → alookup v e.multi = alookup v e'.multi) ∧
     e.transformed = e'.transformed := by
-  obtain ⟨h1, h2⟩ := isolate_agrees' ctx fuel fuel' r hr n env _ _ h h'
+  obtain ⟨h1, h2⟩ := isolate_agrees' ctx hreg fuel fuel' r hr n env _ _ h h'
   exact ⟨h1, h2.lookups⟩
+
+/-- **what the oracle compares** (`opOracleIsolate`): `matchCore` on the isolated core in the
+isolated context against `matchCore` on the core itself — rule, constraints and registries all
+isolated on one side.  Whenever both end normally: same verdict, same single bindings, same multi
+bindings once the `secondary` label is filtered out (the driver's `projected`). -/
+theorem isolate_agrees_full (ctx : RCtx) (hreg : RegIsoOK ctx) (fuel fuel' : Nat) (core : RuleCore)
+    (hc : CoreIsoOK core) (n : Tree) (env : Env) (res res' : Option Tree) (e e' : Env)
+    (h : matchCore (isoCtx ctx) fuel (Spec.isolateCore core) n env = .ok (res, e))
+    (h' : matchCore ctx fuel' core n env = .ok (res', e')) :
+    res.isSome = res'.isSome ∧ e.single = e'.single ∧
+    e.multi.filter (fun kv => kv.1 != secondaryLabel) = e'.multi.filter (fun kv => kv.1 != secondaryLabel) ∧
+    e.transformed = e'.transformed := by
+  obtain ⟨h1, h2⟩ := isolateCore_agrees' ctx hreg fuel fuel' core hc n env _ _ h h'
+  refine ⟨h1, h2.single, ?_, h2.transformed⟩
+  have hm : restrictL nsV e.multi = restrictL nsV e'.multi := congrArg Env.multi
+    (show restrictMulti nsV e = restrictMulti nsV e' from h2)
+  have hf : ∀ l : List (Name × List Tree),
+      l.filter (fun kv => kv.1 != secondaryLabel) = restrictL nsV l := by
+    intro l; unfold restrictL; congr 1; funext kv
+    by_cases hk : kv.1 = secondaryLabel <;> simp [nsV, hk]
+  rw [hf, hf]; exact hm
+
+/-- the simulation for cores: a normal outcome of the oracle's run gives a normal outcome of the
+evaluator at the same fuel -/
+theorem isolateCore_simulates (ctx : RCtx) (hreg : RegIsoOK ctx) (f : Nat) (core : RuleCore)
+    (hc : CoreIsoOK core) (n : Tree) (env : Env) (x : Option Tree × Env)
+    (h : matchCore (isoCtx ctx) f (Spec.isolateCore core) n env = .ok x) :
+    ∃ y, matchCore ctx f core n env = .ok y ∧ x.1.isSome = y.1.isSome ∧ EqNS x.2 y.2 :=
+  isolateCore_simulates' ctx hreg f core hc n env x h
 
 /-! ## 5. Counter-examples and non-vacuity
 
@@ -495,20 +533,37 @@ example : matchCore ctxLeak 9 util c2 Env.empty = .ok (some c2, envA c2) := by
   simp [matchRule, matchCore, constraintLoop, sortByName, insertByName, alookup, ctxLeak, util, kindsGate, pA_c2,
     Tree.kind, Tree.info]
 
-/-- `isolate_agrees` at work, and why the returned node is not compared: `has: {pattern: $A}` on
-the root of `ab` returns the child `a` it found; the isolated form (a singleton `all` around the
-relation) returns the root itself.  Verdict and bindings are the same. -/
-theorem isolate_example :
-    (Rule.has (.pattern pA none .smart) .neighbor none).isoOK = true ∧
-    matchRule ctxOK 14 (Spec.isolate (.has (.pattern pA none .smart) .neighbor none)) doc Env.empty
-      = .ok (some doc, (envA c1).addLabel secondaryLabel c1) ∧
-    matchRule ctxOK 14 (.has (.pattern pA none .smart) .neighbor none) doc Env.empty
-      = .ok (some c1, (envA c1).addLabel secondaryLabel c1) := by
+/-- the registries of `ctxOK` are in the fragment -/
+theorem ctxOK_regIsoOK : RegIsoOK ctxOK := by
   have hsec : secondaryLabel = ['s', 'e', 'c', 'o', 'n', 'd', 'a', 'r', 'y'] := by rfl
+  refine ⟨fun id q h => ?_, fun id core h => ?_⟩
+  · simp only [ctxOK, alookup] at h
+    split at h
+    · simp only [Option.some.injEq] at h; subst h; rfl
+    · cases h
+  · simp only [ctxOK, alookup] at h
+    split at h
+    · simp only [Option.some.injEq] at h; subst h
+      exact ⟨by simp [Rule.isoOK, PNode.vars, MetaVar.capNames, hsec],
+        fun v m hv => by simp [alookup] at hv⟩
+    · cases h
+
+/-- `isolate_agrees` at work through `matches`, and why the returned node is not compared:
+`has: {matches: u}` (`u = {pattern: $A}`) on the root of `ab` returns the child `a` it found; the
+isolated form (a singleton `all` around the relation, in the isolated context) returns the root
+itself.  Verdict and bindings are the same. -/
+theorem isolate_example :
+    (Rule.has (.matches ['u']) .neighbor none).isoOK = true ∧
+    matchRule (isoCtx ctxOK) 16 (Spec.isolate (.has (.matches ['u']) .neighbor none)) doc Env.empty
+      = .ok (some doc, (envA c1).addLabel secondaryLabel c1) ∧
+    matchRule ctxOK 16 (.has (.matches ['u']) .neighbor none) doc Env.empty
+      = .ok (some c1, (envA c1).addLabel secondaryLabel c1) := by
   refine ⟨?_, ?_, ?_⟩
-  · simp [Rule.isoOK, StopBy.isoOK, PNode.vars, MetaVar.capNames, hsec]
-  · simp [Spec.isolate, Spec.isolateStop, matchRule, allLoop, matchHas, findMapRule, finderStep,
-      withLabel, ctxOK, kindsGate, pA_c1, Tree.children]
-  · simp [matchRule, matchHas, findMapRule, finderStep, withLabel, ctxOK, pA_c1, Tree.children]
+  · simp [Rule.isoOK, StopBy.isoOK]
+  · simp [Spec.isolate, Spec.isolateStop, Spec.isolateCore, isoCtx, matchRule, matchCore, allLoop,
+      matchHas, findMapRule, finderStep, constraintLoop, sortByName, insertByName, withLabel, ctxOK,
+      alookup, kindsGate, pA_c1, Tree.children]
+  · simp [matchRule, matchCore, matchHas, findMapRule, finderStep, constraintLoop, sortByName,
+      insertByName, withLabel, ctxOK, alookup, kindsGate, pA_c1, Tree.children]
 
 end AGV.C04
